@@ -58,6 +58,7 @@ XResult xcompile(const std::string &src, XAction action, const std::string &outF
 
 static void finishAsm(AResult &r, std::vector<std::unique_ptr<hexasm::Directive>> &program, int modes, const std::string &outFile) {
   hexasm::CodeGen codeGen(program);
+  r.headerBytes = (long)codeGen.programSizeBytes;
   if (modes & A_LISTING) {
     std::ostringstream o; codeGen.emitProgramText(o); r.listing = o.str();
   }
